@@ -177,14 +177,17 @@ package quickfix
 // INV_FM: the order list and the lookup map agree. cntTag counts occurrences of a tag in the order list;
 // the invariant says every tag occurs exactly once iff it is present in the lookup (so: no duplicates, no
 // stale entries, nothing missing), and every lookup value starts with a field carrying its key.
-//@ recspec cntTag(a int, p int, n int, t Tag) mathint = n <= 0 ? 0 : cntTag(a, p, n-1, t) + (cell(Tag, a, p+n-1) == t ? 1 : 0)
-//@ spec tagcount(m *FieldMap, t Tag) mathint = cntTag(arr(m.tags), off(m.tags), len(m.tags), t)
-//@ spec fmvals(m *FieldMap) bool = forall t Tag :: has(m.tagLookup, t) ==> len(m.tagLookup[t]) >= 1 && m.tagLookup[t][0].tag == t
+// (defined over the element row as a value: unchanged rows give identical terms whatever else the heap does)
+//@ recspec cntTag(r introw, p int, n int, t Tag) mathint = n <= 0 ? 0 : cntTag(r, p, n-1, t) + (rowat(r, p+n-1) == t ? 1 : 0)
+//@ spec tagcount(m *FieldMap, t Tag) mathint = cntTag(rowof(Tag, arr(m.tags)), off(m.tags), len(m.tags), t)
+// fmvals: every lookup value has a first field (what the getters index); fmkeys: that field carries the key
+//@ spec fmvals(m *FieldMap) bool = forall t Tag :: has(m.tagLookup, t) ==> len(m.tagLookup[t]) >= 1
+//@ spec fmkeys(m *FieldMap) bool = forall t Tag :: has(m.tagLookup, t) ==> m.tagLookup[t][0].tag == t
 //@ spec fmorder(m *FieldMap) bool = forall t Tag :: tagcount(m, t) == (has(m.tagLookup, t) ? 1 : 0)
 //@ spec fmwf(m *FieldMap) bool = m.tagLookup != nil && m.rwLock != nil && fmvals(m) && fmorder(m)
 
-//@ lemma cntTag_ext [C10]: induction n: forall n int, a1 int, p1 int, a2 int, p2 int, t Tag :: (forall j :: p1 <= j && j < p1+n ==> old(cell(Tag, a1, j)) == cell(Tag, a2, j-p1+p2)) ==> old(cntTag(a1, p1, n, t)) == cntTag(a2, p2, n, t)
-//@ lemma cntTag_nonneg [C10]: induction n: forall n int, a int, p int, t Tag :: 0 <= cntTag(a, p, n, t) && cntTag(a, p, n, t) <= (n < 0 ? 0 : n)
+//@ lemma cntTag_ext [C10]: induction n: forall n int, r1 introw, p1 int, r2 introw, p2 int, t Tag :: (forall j :: p1 <= j && j < p1+n ==> rowat(r1, j) == rowat(r2, j-p1+p2)) ==> cntTag(r1, p1, n, t) == cntTag(r2, p2, n, t)
+//@ lemma cntTag_nonneg [C10]: induction n: forall n int, r introw, p int, t Tag :: 0 <= cntTag(r, p, n, t) && cntTag(r, p, n, t) <= (n < 0 ? 0 : n)
 
 //@ func (m *FieldMap) initWithOrdering [C10]
 //@   typedheap
@@ -192,6 +195,7 @@ package quickfix
 //@   ensures @wf fmwf(m)
 //@   ensures @empty forall t Tag :: !has(m.tagLookup, t)
 //@   ensures @order m.compare == ordering
+//@   ensures @freshmap fresh(m.tagLookup) && allocated(m.tagLookup) && fresh(m.rwLock) && allocated(m.rwLock) && m.tags == old(m.tags)
 //@   modifies m.*
 
 //@ func (m *FieldMap) getOrCreate [C09,C10]
@@ -204,12 +208,14 @@ package quickfix
 //@   ensures @others forall t Tag :: t != tag ==> (has(m.tagLookup, t) <==> old(has(m.tagLookup, t))) && m.tagLookup[t] == old(m.tagLookup[t])
 //@   ensures @order fmorder(m)
 //@   ensures @same m.tagLookup == old(m.tagLookup) && m.rwLock == old(m.rwLock) && m.compare == old(m.compare)
+//@   ensures @tagsarr (arr(m.tags) == old(arr(m.tags)) || (fresh(m.tags) && allocated(m.tags))) && (arr(m.tags) == 0 ==> m.tags == old(m.tags))
 
 //@ func (m *FieldMap) init [C10]
 //@   typedheap
 //@   requires m.tags == nil
 //@   ensures @wf fmwf(m)
 //@   ensures @empty forall t Tag :: !has(m.tagLookup, t)
+//@   ensures @freshmap fresh(m.tagLookup) && allocated(m.tagLookup) && fresh(m.rwLock) && allocated(m.rwLock) && m.compare != nil && m.tags == old(m.tags)
 //@   modifies m.*
 
 // add: used by the parser; the field carries its own tag
@@ -220,6 +226,7 @@ package quickfix
 //@   ensures @others forall t Tag :: t != f[0].tag ==> (has(m.tagLookup, t) <==> old(has(m.tagLookup, t))) && m.tagLookup[t] == old(m.tagLookup[t])
 //@   ensures @order old(fmorder(m)) ==> fmorder(m)
 //@   ensures @same m.tagLookup == old(m.tagLookup) && m.rwLock == old(m.rwLock) && m.compare == old(m.compare)
+//@   ensures @tagsarr (arr(m.tags) == old(arr(m.tags)) || (fresh(m.tags) && allocated(m.tags))) && (arr(m.tags) == 0 ==> m.tags == old(m.tags))
 
 // setters: afterwards the tag is present with a one-element field [tag = value] in a fresh buffer; all other tags untouched
 //@ spec onefield(m *FieldMap, tag Tag, value []byte) bool = has(m.tagLookup, tag) && len(m.tagLookup[tag]) >= 1 && m.tagLookup[tag][0].tag == tag && m.tagLookup[tag][0].value == value && tvwf(m.tagLookup[tag][0].bytes, tag, value, len(m.tagLookup[tag][0].bytes) - len(value) - 2)
@@ -242,17 +249,19 @@ package quickfix
 
 //@ func (m *FieldMap) SetBytes [C10]
 //@   requires fmwf(m)
-//@   modifies m.tags, m.tags[*], m.tagLookup[*], m.tagLookup[tag][*], fresh E.uint8, fresh H.quickfix.TagValue.*, fresh E.quickfix.Tag
+//@   modifies m.tags, m.tags[*], m.tagLookup[*], m.tagLookup[tag][0].*, fresh E.uint8, fresh H.quickfix.TagValue.*, fresh E.quickfix.Tag
 //@   ensures @set onefield(m, tag, value)
 //@   ensures @single (!old(has(m.tagLookup, tag)) || old(len(m.tagLookup[tag])) == 1) ==> len(m.tagLookup[tag]) == 1
 //@   ensures @others otherssame(m, tag)
 //@   ensures @order fmorder(m)
 //@   ensures @ret result == m
+//@   ensures @tagsarr (arr(m.tags) == old(arr(m.tags)) || (fresh(m.tags) && allocated(m.tags))) && (arr(m.tags) == 0 ==> m.tags == old(m.tags))
+//@   ensures @wf fmwf(m) && m.compare == old(m.compare)
 
 // replacing one cell changes the count by (new cell == t) - (old cell == t)
-//@ lemma cntTag_upd [C10]: induction n: forall n int, a int, p int, j int, t Tag :: (p <= j && j < p+n && (forall q :: p <= q && q < p+n && q != j ==> old(cell(Tag, a, q)) == cell(Tag, a, q))) ==> cntTag(a, p, n, t) == old(cntTag(a, p, n, t)) - (old(cell(Tag, a, j)) == t ? 1 : 0) + (cell(Tag, a, j) == t ? 1 : 0)
+//@ lemma cntTag_upd [C10]: induction n: forall n int, r1 introw, r2 introw, p int, j int, t Tag :: (p <= j && j < p+n && (forall q :: p <= q && q < p+n && q != j ==> rowat(r1, q) == rowat(r2, q))) ==> cntTag(r2, p, n, t) == cntTag(r1, p, n, t) - (rowat(r1, j) == t ? 1 : 0) + (rowat(r2, j) == t ? 1 : 0)
 // a tag that does not occur has count 0
-//@ lemma cntTag_zero [C10]: induction n: forall n int, a int, p int, t Tag :: (forall q :: p <= q && q < p+n ==> cell(Tag, a, q) != t) ==> cntTag(a, p, n, t) == 0
+//@ lemma cntTag_zero [C10]: induction n: forall n int, r introw, p int, t Tag :: (forall q :: p <= q && q < p+n ==> rowat(r, q) != t) ==> cntTag(r, p, n, t) == 0
 
 //@ func (m *FieldMap) Remove [C10]
 //@   requires fmwf(m)
@@ -432,29 +441,41 @@ package quickfix
 // ---- field_map.go: typed setters, group setter, copy ------------------------------------------
 //@ func (m *FieldMap) SetInt [C10]
 //@   requires fmwf(m)
+//@   modifies m.tags, m.tags[*], m.tagLookup[*], m.tagLookup[tag][0].*, fresh E.uint8, fresh H.quickfix.TagValue.*, fresh E.quickfix.Tag, fresh P.quickfix.FIXInt, fresh P.quickfix.FIXBoolean, fresh P.quickfix.FIXString
 //@   ensures @set has(m.tagLookup, tag) && m.tagLookup[tag][0].tag == tag && canonint(m.tagLookup[tag][0].value) && intval(m.tagLookup[tag][0].value) == value
 //@   ensures @bytes tvwf(m.tagLookup[tag][0].bytes, tag, m.tagLookup[tag][0].value, len(m.tagLookup[tag][0].bytes) - len(m.tagLookup[tag][0].value) - 2)
 //@   ensures @others otherssame(m, tag)
 //@   ensures @order fmorder(m)
+//@   ensures @tagsarr (arr(m.tags) == old(arr(m.tags)) || (fresh(m.tags) && allocated(m.tags))) && (arr(m.tags) == 0 ==> m.tags == old(m.tags))
+//@   ensures @wf fmwf(m) && m.compare == old(m.compare)
 
 //@ func (m *FieldMap) SetString [C10]
 //@   requires fmwf(m)
+//@   modifies m.tags, m.tags[*], m.tagLookup[*], m.tagLookup[tag][0].*, fresh E.uint8, fresh H.quickfix.TagValue.*, fresh E.quickfix.Tag, fresh P.quickfix.FIXInt, fresh P.quickfix.FIXBoolean, fresh P.quickfix.FIXString
 //@   ensures @set has(m.tagLookup, tag) && m.tagLookup[tag][0].tag == tag && len(m.tagLookup[tag][0].value) == len(value) && (forall i :: 0 <= i && i < len(value) ==> m.tagLookup[tag][0].value[i] == value[i])
 //@   ensures @bytes tvwf(m.tagLookup[tag][0].bytes, tag, m.tagLookup[tag][0].value, len(m.tagLookup[tag][0].bytes) - len(m.tagLookup[tag][0].value) - 2)
 //@   ensures @others otherssame(m, tag)
 //@   ensures @order fmorder(m)
+//@   ensures @tagsarr (arr(m.tags) == old(arr(m.tags)) || (fresh(m.tags) && allocated(m.tags))) && (arr(m.tags) == 0 ==> m.tags == old(m.tags))
+//@   ensures @wf fmwf(m) && m.compare == old(m.compare)
 
 //@ func (m *FieldMap) SetBool [C10]
 //@   requires fmwf(m)
+//@   modifies m.tags, m.tags[*], m.tagLookup[*], m.tagLookup[tag][0].*, fresh E.uint8, fresh H.quickfix.TagValue.*, fresh E.quickfix.Tag, fresh P.quickfix.FIXInt, fresh P.quickfix.FIXBoolean, fresh P.quickfix.FIXString
 //@   ensures @set has(m.tagLookup, tag) && m.tagLookup[tag][0].tag == tag && len(m.tagLookup[tag][0].value) == 1 && m.tagLookup[tag][0].value[0] == (value ? 89 : 78)
 //@   ensures @others otherssame(m, tag)
 //@   ensures @order fmorder(m)
+//@   ensures @tagsarr (arr(m.tags) == old(arr(m.tags)) || (fresh(m.tags) && allocated(m.tags))) && (arr(m.tags) == 0 ==> m.tags == old(m.tags))
+//@   ensures @wf fmwf(m) && m.compare == old(m.compare)
 
 //@ func (m *FieldMap) SetField [C10]
 //@   inline
 //@   requires fmwf(m) && field != nil
 //@   ensures @set has(m.tagLookup, tag) && m.tagLookup[tag][0].tag == tag
-//@   modifies *
+//@   ensures @wf fmwf(m)
+//@   ensures @others otherssame(m, tag)
+//@   ensures @tagsarr (arr(m.tags) == old(arr(m.tags)) || (fresh(m.tags) && allocated(m.tags))) && (arr(m.tags) == 0 ==> m.tags == old(m.tags))
+//@   modifies m.tags, m.tags[*], m.tagLookup[*], m.tagLookup[tag][0].*, fresh E.uint8, fresh H.quickfix.TagValue.*, fresh E.quickfix.Tag
 
 //@ func (m *FieldMap) Set [C10]
 //@   requires fmwf(m) && field != nil
@@ -664,3 +685,81 @@ package quickfix
 //@ func (f memoryStoreFactory) Create [C16]
 //@   ensures @fresh result1 == nil ==> result0 is *memoryStore && fresh(unbox(result0, *memoryStore))
 //@   ensures @initial result1 == nil ==> msS(unbox(result0, *memoryStore)) == 1 && msT(unbox(result0, *memoryStore)) == 1 && (forall k int :: !has(unbox(result0, *memoryStore).messageMap, k))
+
+// ---- message construction and serialisation (safety, frames, invariant preservation) --------------------
+// the three order lists do not share a backing array
+//@ spec tagssep(msg *Message) bool = (arr(msg.Header.tags) == 0 || (arr(msg.Header.tags) != arr(msg.Body.tags) && arr(msg.Header.tags) != arr(msg.Trailer.tags))) && (arr(msg.Body.tags) == 0 || arr(msg.Body.tags) != arr(msg.Trailer.tags)) && (arr(msg.Header.tags) == 0 ? len(msg.Header.tags) == 0 : allocated(msg.Header.tags)) && (arr(msg.Body.tags) == 0 ? len(msg.Body.tags) == 0 : allocated(msg.Body.tags)) && (arr(msg.Trailer.tags) == 0 ? len(msg.Trailer.tags) == 0 : allocated(msg.Trailer.tags))
+//@ spec msgwf(msg *Message) bool = msg != nil && mapsok(msg) && tagssep(msg) && fmwf(msg.Header.FieldMap) && fmwf(msg.Body.FieldMap) && fmwf(msg.Trailer.FieldMap) && msg.Header.compare != nil && msg.Body.compare != nil && msg.Trailer.compare != nil
+
+//@ func NewMessage [C09,C10]
+//@   typedheap
+//@   ensures @fresh result != nil && fresh(result)
+//@   ensures @wf msgwf(result)
+//@   ensures @empty (forall t Tag :: !has(result.Header.tagLookup, t) && !has(result.Body.tagLookup, t) && !has(result.Trailer.tagLookup, t)) && result.rawMessage == nil && result.fields == nil
+//@   modifies fresh H.quickfix.Message.*, fresh H.quickfix.FieldMap.*, fresh H.quickfix.tagSort.*, fresh H.sync.RWMutex.*, fresh H.sync.Mutex.*, fresh MH.quickfix.Tag.quickfix.field, fresh H.time.Time.*
+
+// sort.Sort permutes m.tags in place (stated contract of the standard library)
+//@ func (m *FieldMap) sortedTags [C10]
+//@   trusted
+//@   requires m.compare != nil
+//@   ensures result == m.tags && m.tags == old(m.tags)
+//@   ensures forall t Tag :: tagcount(m, t) == old(tagcount(m, t))
+//@   modifies m.tags[*]
+
+//@ func writeField [C09,C10]
+//@   requires buffer != nil
+//@   modifies buffer.*
+//@   loop 1 modifies buffer.*
+//@   loop 1 decreases len(f) - $i
+
+//@ func (m FieldMap) write [C09,C10]
+//@   requires buffer != nil && m.tagLookup != nil && m.rwLock != nil && m.compare != nil
+//@   ensures @order old(fmorder(m)) ==> fmorder(m)
+//@   modifies m.tags[*], buffer.*
+//@   loop 1 modifies buffer.*
+
+//@ func (m FieldMap) length [C09,C10]
+//@   requires m.rwLock != nil
+//@   pure
+
+//@ func (m FieldMap) total [C09,C10]
+//@   requires m.rwLock != nil
+//@   pure
+
+//@ func (tv TagValue) length [C10]
+//@   pure
+//@   ensures result == len(tv.bytes)
+//@ func (tv TagValue) total [C10]
+//@   pure
+//@   ensures result == bsum(arr(tv.bytes), off(tv.bytes), len(tv.bytes))
+
+//@ func formatCheckSum [C10]
+//@   pure
+
+// cook sets BodyLength (9) in the header and CheckSum (10) in the trailer and leaves every other field alone
+//@ func (m *Message) cook [C10]
+//@   requires msgwf(m)
+//@   ensures @maps mapsok(m) && m.Header.compare != nil && m.Body.compare != nil && m.Trailer.compare != nil
+//@   ensures @tagsarr (arr(m.Header.tags) == old(arr(m.Header.tags)) || (fresh(m.Header.tags) && allocated(m.Header.tags))) && (arr(m.Trailer.tags) == old(arr(m.Trailer.tags)) || (fresh(m.Trailer.tags) && allocated(m.Trailer.tags))) && m.Body.tags == old(m.Body.tags)
+//@   ensures @sep tagssep(m)
+//@   ensures @wfH fmwf(m.Header.FieldMap)
+//@   ensures @wfB fmwf(m.Body.FieldMap)
+//@   ensures @wfT fmwf(m.Trailer.FieldMap)
+//@   ensures @wf msgwf(m)
+//@   ensures @set fhas(m.Header.FieldMap, 9) && fhas(m.Trailer.FieldMap, 10)
+//@   ensures @header forall t Tag :: t != 9 ==> (fhas(m.Header.FieldMap, t) <==> old(fhas(m.Header.FieldMap, t))) && m.Header.tagLookup[t] == old(m.Header.tagLookup[t])
+//@   ensures @trailer forall t Tag :: t != 10 ==> (fhas(m.Trailer.FieldMap, t) <==> old(fhas(m.Trailer.FieldMap, t))) && m.Trailer.tagLookup[t] == old(m.Trailer.tagLookup[t])
+//@   modifies m.Header.tags, m.Header.tags[*], m.Header.tagLookup[*], m.Header.tagLookup[9][0].*, m.Trailer.tags, m.Trailer.tags[*], m.Trailer.tagLookup[*], m.Trailer.tagLookup[10][0].*, fresh E.uint8, fresh H.quickfix.TagValue.*, fresh E.quickfix.Tag
+
+//@ func (m *Message) build [C09,C10]
+//@   requires msgwf(m)
+//@   ensures @wf msgwf(m)
+//@   ensures @set fhas(m.Header.FieldMap, 9) && fhas(m.Trailer.FieldMap, 10)
+//@   ensures @header forall t Tag :: t != 9 ==> (fhas(m.Header.FieldMap, t) <==> old(fhas(m.Header.FieldMap, t))) && m.Header.tagLookup[t] == old(m.Header.tagLookup[t])
+//@   ensures @body forall t Tag :: (fhas(m.Body.FieldMap, t) <==> old(fhas(m.Body.FieldMap, t))) && m.Body.tagLookup[t] == old(m.Body.tagLookup[t])
+//@   modifies m.Header.tags, m.Header.tags[*], m.Header.tagLookup[*], m.Header.tagLookup[9][0].*, m.Trailer.tags, m.Trailer.tags[*], m.Trailer.tagLookup[*], m.Trailer.tagLookup[10][0].*, m.Body.tags[*], fresh E.uint8, fresh H.quickfix.TagValue.*, fresh E.quickfix.Tag, fresh H.bytes.Buffer.*
+
+//@ func (m *Message) buildWithBodyBytes [C03,C09,C10]
+//@   requires msgwf(m)
+//@   ensures @wf msgwf(m)
+//@   modifies m.Header.tags, m.Header.tags[*], m.Header.tagLookup[*], m.Header.tagLookup[9][0].*, m.Trailer.tags, m.Trailer.tags[*], m.Trailer.tagLookup[*], m.Trailer.tagLookup[10][0].*, fresh E.uint8, fresh H.quickfix.TagValue.*, fresh E.quickfix.Tag, fresh H.bytes.Buffer.*
